@@ -8,10 +8,14 @@ demo=$(ls $d/demo*.py | head -1)
 PYTHONPATH=/repo /venv/bin/python $demo >/dev/null 2>&1; base=$?
 (cd "$W" && git apply "$OLDPWD/$d/patch.diff") || { echo "$name: patch does not apply"; git -C /repo worktree remove --force "$W"; exit 8; }
 PYTHONPATH="$W" /venv/bin/python $demo >/dev/null 2>&1; mut=$?
-out=$(cd /verif && PYVC_REPO="$W" ./check $pid --tier quick 2>&1)
+# meta.json may name the properties whose checks are expected to catch the change ("checked_by"); default: the seeded property
+pids=$(python3 -c "import json;m=json.load(open('$d/meta.json'));print(' '.join(m.get('checked_by',[m['property']])))")
+for cp in $pids; do
+out=$(cd /verif && PYVC_REPO="$W" ./check $cp --tier quick 2>&1)
 rc=$?
 viol=$(echo "$out" | grep -c "^VIOLATION")
 first=$(echo "$out" | grep "^VIOLATION" | head -2 | sed 's#.*/replays/##' | tr '\n' ' ')
 und=$(echo "$out" | grep -c "^UNDECIDED")
-echo "$name property=$pid demo_on_unchanged=$base demo_on_seeded=$mut check_exit=$rc violations=$viol undecided=$und first=[$first]"
+echo "$name property=$pid check=$cp demo_on_unchanged=$base demo_on_seeded=$mut check_exit=$rc violations=$viol undecided=$und first=[$first]"
+done
 git -C /repo worktree remove --force "$W"; rm -rf "$W"
